@@ -56,10 +56,15 @@ def queries2(rng, xs, ys, count, S, ext=False):
     return qx, qy
 
 
-def gen_grid(rng, S):
+def gen_grid(rng, S, deep=False):
     nx = rng.choice([2, 2, 3, 4, 5, 12])
     ny = rng.choice([2, 3, 3, 5, 9])
     trailing = gen.trailing_shape(rng, 2)
+    if deep and rng.random() < 0.06:
+        # data of 7 .. 9 dimensions (only dynamic-dimensional arrays go that far; seed C04-r11m1: per-rank kernels for the lanes with a
+        # fallback arm for lane rank >= 5 that takes the corners in another order)
+        trailing = rng.choice([[2, 1, 2, 1, 2], [1, 2, 2, 1, 1, 2], [2, 2, 1, 1, 2, 1], [2, 1, 1, 1, 1, 1, 2], [1, 1, 2, 1, 3]])
+        nx, ny = min(nx, 4), min(ny, 3)
     shape = [nx, ny] + trailing
     defx, defy = rng.random() < 0.3, rng.random() < 0.3
     if S == "Q":
@@ -113,7 +118,7 @@ def generate(rng, tier):
     nf = gen.N(tier, 250, 5000)
     for S, cnt in (("Q", nq), ("F", nf)):
         for _ in range(cnt):
-            shape, defx, defy, xs, ys, flat = gen_grid(rng, S)
+            shape, defx, defy, xs, ys, flat = gen_grid(rng, S, deep=True)
             qx, qy = queries2(rng, xs, ys, rng.randint(2, 8), S)
             cases.append(build_line(rng, S, shape, defx, defy, xs, ys, flat, qx, qy, False))
     # f32 elements: every value an f32; model at IEEE binary32 (bit for bit), held to the composed bound with u = 2^-24
